@@ -28,7 +28,7 @@ NCPU = os.cpu_count() or 4
 # blind-spot report (tools/covreport.py): build the driver and sfw with -cover and collect counters here
 COVER_DIR = os.environ.get("VERIF_COVER", "")
 COVER_PKGS = "./..."
-COVER_FLAGS = ["-cover", "-coverpkg=" + COVER_PKGS] if COVER_DIR else []
+COVER_FLAGS = ["-cover", "-covermode=atomic", "-coverpkg=" + COVER_PKGS] if COVER_DIR else []
 if COVER_DIR:
     os.makedirs(COVER_DIR, exist_ok=True)
     os.environ["GOCOVERDIR"] = COVER_DIR
